@@ -414,6 +414,7 @@ def run_shard(spec):
     else:
         for i in range(spec["n"]):
             case = gen_hier(rng)
+            case["hist"] = [spec["seed"], i]
             run_hier(acc, case, f"h{spec['seed']:x}x{i}")
             if i == 0:
                 acc.samples.append(case)
@@ -430,6 +431,14 @@ def replay(pid, case):
     acc = Acc()
     if case.get("mode") == "hier":
         run_hier(acc, case, "replayh")
+        if not acc.violations and "hist" in case:
+            # behind the class definitions that preceded it in its shard (caches keyed by id(cls) outlive the classes)
+            seed, idx = case["hist"]
+            rng = random.Random(seed)
+            for i in range(idx):
+                run_hier(Acc(), gen_hier(rng), f"h{seed:x}x{i}")
+            acc = Acc()
+            run_hier(acc, case, f"h{seed:x}x{idx}")
         return acc.violations[0] if acc.violations else None
     run_item(acc, case)
     if acc.violations or "seq" not in case:
